@@ -45,10 +45,16 @@ class Level(enum.IntEnum):
     HIGH = 2
 
 
-SCALARS = ["int", "float", "str", "bool", "bytes", "Decimal", "date", "datetime", "time", "timedelta", "UUID", "Color", "Level"]
+class Rate(enum.Enum):       # a plain Enum whose values are floats (one of them no binary fraction)
+    REDUCED = 0.1
+    HALF = 0.5
+    FULL = 19.75
+
+
+SCALARS = ["int", "float", "str", "bool", "bytes", "Decimal", "date", "datetime", "time", "timedelta", "UUID", "Color", "Level", "Rate"]
 HASHABLE = ["int", "str", "date", "UUID", "Color", "Level", "Decimal"]
 PY = {"int": int, "float": float, "str": str, "bool": bool, "bytes": bytes, "Decimal": Decimal, "date": dt.date, "datetime": dt.datetime,
-      "time": dt.time, "timedelta": dt.timedelta, "UUID": uuid.UUID, "Color": Color, "Level": Level}
+      "time": dt.time, "timedelta": dt.timedelta, "UUID": uuid.UUID, "Color": Color, "Level": Level, "Rate": Rate}
 _uid = [0]
 
 
@@ -70,8 +76,10 @@ def gen_type(rng, depth=2):
         return ("tuplevar", gen_type(rng, depth - 1))
     if r < 0.88:
         return ("tuple2", gen_type(rng, depth - 1), gen_type(rng, depth - 1))
-    if r < 0.95:
+    if r < 0.93:
         return ("dict", gen_type(rng, depth - 1))
+    if r < 0.96:
+        return ("bare", rng.choice(["list", "dict"]))     # untyped list / dict holding JSON-native values
     return ("nested",)
 
 
@@ -80,6 +88,11 @@ def gen_value(rng, t):
     k = t[0]
     if k == "s":
         return gen_scalar(rng, t[1])
+    if k == "bare":
+        items = [rng.choice([0, 1, -7, 0.1, 36.6, 2.5, "a", "", True, None, 10 ** 20]) for _ in range(rng.randint(0, 4))]
+        if t[1] == "list":
+            return items, "bare:list"
+        return {"k%d" % j: x for j, x in enumerate(items)}, "bare:dict"
     if k == "opt":
         if rng.random() < 0.3:
             return None, "none"
@@ -171,6 +184,8 @@ def gen_scalar(rng, name):
         return rng.choice(list(Color)), "Enum"
     if name == "Level":
         return rng.choice(list(Level)), "IntEnum"
+    if name == "Rate":
+        return rng.choice(list(Rate)), "Enum:float"
     raise ValueError(name)
 
 
@@ -178,6 +193,8 @@ def annotation(t, Nested):
     k = t[0]
     if k == "s":
         return PY[t[1]]
+    if k == "bare":
+        return {"list": list, "dict": dict}[t[1]]
     if k == "opt":
         return typing.Optional[annotation(t[1], Nested)]
     if k == "list":
@@ -197,7 +214,9 @@ def make_case(i, rng, tier):
     n = rng.randint(1, 5)
     types_ = [gen_type(rng) for _ in range(n)]
     vals = [gen_value(rng, t) for t in types_]
-    return {"base": "DataClass" if rng.random() < 0.06 else "Schema", "types": types_, "values": [v for v, _ in vals], "traits": [tr for _, tr in vals]}
+    return {"base": "DataClass" if rng.random() < 0.06 else "Schema", "types": types_, "values": [v for v, _ in vals], "traits": [tr for _, tr in vals],
+            # the class's own parse options: reading the class's JSON text back happens under them
+            "opts": rng.choice([None, None, None, {"no_data_loss": True}, {"no_data_loss": True}, {"addition": False}])}
 
 
 def eq(a, b, depth=0):
@@ -239,6 +258,9 @@ def run_case(case, ctx):
     Inner.__module__ = "vmon_generated"
     names = ["f%d" % i for i in range(len(case["types"]))]
     ns = {"__annotations__": {n: annotation(t, Inner) for n, t in zip(names, case["types"])}, "__module__": "vmon_generated", "__qualname__": "J%d" % _uid[0]}
+    if case.get("opts"):
+        ns["__options__"] = utype.Options(**case["opts"])
+        ctx.count("classes_with_own_options:" + ",".join(sorted(case["opts"])))
     try:
         cls = type(base)("J%d" % _uid[0], (base,), ns)
     except Exception as e:
@@ -255,8 +277,8 @@ def run_case(case, ctx):
         view = (lambda x: dict(x)) if case["base"] == "Schema" else (lambda x: {k: v for k, v in x.__dict__.items() if not k.startswith("__")})
         orig = view(inst)
         tvec = tuple(repr(t) for t in case["types"])
-        sig = (case["base"], tvec, tuple(case["traits"]))
-        wit = {"base": case["base"], "types": list(tvec), "instance": short(orig, 300)}
+        sig = (case["base"], tvec, tuple(case["traits"]), tuple(sorted((case.get("opts") or {}).items())))
+        wit = {"base": case["base"], "types": list(tvec), "class_options": case.get("opts"), "instance": short(orig, 300)}
         ctx.count("instances")
         enc = run(lambda: json.dumps(inst, cls=JSONEncoder))
         if not enc.ok:
